@@ -193,18 +193,30 @@ fn compile_adhoc_script(
 ) -> Result<primitives::ScriptRef<'static>, Error> {
     let script = adhoc.data.get("script").map(expr_into_bytes).transpose()?;
 
+    let bad_version = || {
+        Error::CoerceError(
+            format!("{:?}", adhoc.data.get("version")),
+            "Reference script version".to_string(),
+        )
+    };
+
     let version = adhoc
         .data
         .get("version")
         .map(coercion::expr_into_number)
         .transpose()?
-        .map(|v| v as PlutusVersion)
+        .map(|v| PlutusVersion::try_from(v).map_err(|_| bad_version()))
+        .transpose()?
         .unwrap_or(3);
-    let script_bytes = script.unwrap().to_vec();
+    let script_bytes = script
+        .ok_or(Error::MissingExpression("script".to_string()))?
+        .to_vec();
     let script_ref = match version {
         0 => {
             let decoded: pallas::codec::utils::KeepRaw<'_, primitives::NativeScript> =
-                minicbor::decode(&script_bytes).unwrap();
+                minicbor::decode(&script_bytes).map_err(|_| {
+                    Error::CoerceError(hex::encode(&script_bytes), "NativeScript".to_string())
+                })?;
             let owned_script = decoded.to_owned();
             primitives::ScriptRef::NativeScript(owned_script)
         }
@@ -220,12 +232,7 @@ fn compile_adhoc_script(
             let script = primitives::PlutusScript::<3>(script_bytes.into());
             primitives::ScriptRef::PlutusV3Script(script)
         }
-        _ => {
-            return Err(Error::CoerceError(
-                format!("{:?}", adhoc.data.get("version")),
-                "Reference script version".to_string(),
-            ));
-        }
+        _ => return Err(bad_version()),
     };
     Ok(script_ref)
 }
